@@ -136,7 +136,8 @@ theorem stDTD_present {f : Field} {fds kvs res x} (hl : dlookup kvs f.key = some
 
 /-! ### the collection / tuple / tuple-strategy cases of the main functions -/
 
-theorem stF_coll_none {k t o} (h : iterItems o = Option.none) : stF w cfg (.coll k t) o = Option.none := by
+theorem stF_coll_none {k t o} (h : iterItems o = Option.none) :
+    stF w cfg (.coll k t) o = stLF w cfg (leafFuel w) (.coll k t) o := by
   rw [stF]; split
   · rfl
   · rename_i xs h'; rw [h] at h'; cases h'
@@ -150,7 +151,8 @@ theorem stF_coll_some {k t o xs} (h : iterItems o = some xs) :
   · rename_i h'; rw [h] at h'; cases h'
   · rename_i xs' h'; rw [h] at h'; cases h'; rfl
 
-theorem stD_coll_none {k t o} (h : iterItems o = Option.none) : stD w cfg (.coll k t) o = .error .leaf := by
+theorem stD_coll_none {k t o} (h : iterItems o = Option.none) :
+    stD w cfg (.coll k t) o = stLD w cfg (leafFuel w) (.coll k t) o := by
   rw [stD]; split
   · rfl
   · rename_i xs h'; rw [h] at h'; cases h'
@@ -168,7 +170,8 @@ theorem stD_coll_some {k t o xs} (h : iterItems o = some xs) :
   · rename_i h'; rw [h] at h'; cases h'
   · rename_i xs' h'; rw [h] at h'; cases h'; rfl
 
-theorem stF_tup_none {ts o} (h : iterItems o = Option.none) : stF w cfg (.tupleHet ts) o = Option.none := by
+theorem stF_tup_none {ts o} (h : iterItems o = Option.none) :
+    stF w cfg (.tupleHet ts) o = stLF w cfg (leafFuel w) (.tupleHet ts) o := by
   rw [stF]; split
   · rfl
   · rename_i xs h'; rw [h] at h'; cases h'
@@ -179,7 +182,8 @@ theorem stF_tup_some {ts o xs} (h : iterItems o = some xs) :
   · rename_i h'; rw [h] at h'; cases h'
   · rename_i xs' h'; rw [h] at h'; cases h'; rfl
 
-theorem stD_tup_none {ts o} (h : iterItems o = Option.none) : stD w cfg (.tupleHet ts) o = .error .leaf := by
+theorem stD_tup_none {ts o} (h : iterItems o = Option.none) :
+    stD w cfg (.tupleHet ts) o = stLD w cfg (leafFuel w) (.tupleHet ts) o := by
   rw [stD]; split
   · rfl
   · rename_i xs h'; rw [h] at h'; cases h'
@@ -195,7 +199,7 @@ theorem stD_tup_some {ts o xs} (h : iterItems o = some xs) :
 theorem stF_cls_tuple {c o} (ht : cfg.tupleStrat = true) :
     stF w cfg (.cls c) o =
       match iterItems o with
-      | Option.none => Option.none
+      | Option.none => stLF w cfg (leafFuel w) (.cls c) o
       | some xs => (stFFieldsT w cfg (w.fields c) xs).map (.inst c) := by
   cases o
   case dict kvs => rw [stF]; simp [ht, iterItems]
@@ -212,7 +216,7 @@ def wrapInst (c : Nat) (r : Except Err (List (String × Obj))) : Res :=
 theorem stD_cls_tuple {c o} (ht : cfg.tupleStrat = true) :
     stD w cfg (.cls c) o =
       match iterItems o with
-      | Option.none => .error .leaf
+      | Option.none => stLD w cfg (leafFuel w) (.cls c) o
       | some xs => wrapInst c (stDFieldsT w cfg (w.fields c) xs) := by
   cases o
   case dict kvs =>
@@ -300,7 +304,8 @@ variable (w : World) (cfg : Cfg)
 
 /-! ### NamedTuples: a heterogeneous tuple of the field types, then `cl(*res)` -/
 
-theorem stF_nt_none {c o} (h : iterItems o = Option.none) : stF w cfg (.nt c) o = Option.none := by
+theorem stF_nt_none {c o} (h : iterItems o = Option.none) :
+    stF w cfg (.nt c) o = stLF w cfg (leafFuel w) (.nt c) o := by
   rw [stF]; split
   · rfl
   · rename_i xs h'; rw [h] at h'; cases h'
@@ -311,7 +316,8 @@ theorem stF_nt_some {c o xs} (h : iterItems o = some xs) :
   · rename_i h'; rw [h] at h'; cases h'
   · rename_i xs' h'; rw [h] at h'; cases h'; rfl
 
-theorem stD_nt_none {c o} (h : iterItems o = Option.none) : stD w cfg (.nt c) o = .error .leaf := by
+theorem stD_nt_none {c o} (h : iterItems o = Option.none) :
+    stD w cfg (.nt c) o = stLD w cfg (leafFuel w) (.nt c) o := by
   rw [stD]; split
   · rfl
   · rename_i xs h'; rw [h] at h'; cases h'
@@ -327,15 +333,13 @@ theorem stD_nt_some {c o xs} (h : iterItems o = some xs) :
   · rename_i h'; rw [h] at h'; cases h'
   · rename_i xs' h'; rw [h] at h'; cases h'; rfl
 
-/-- the structuring templates on a `.nt` position are those of the heterogeneous tuple of the field types -/
-theorem stF_nt_eq_tup {c o} (hnt : w.isNT c = true) :
+/-- the structuring templates on a `.nt` position are those of the heterogeneous tuple of the field types
+(container payloads; for `str` / `bytes` payloads the same holds up to the fuel spent on entering the class) -/
+theorem stF_nt_eq_tup {c o xs} (hnt : w.isNT c = true) (hit : iterItems o = some xs) :
     stF w cfg (.nt c) o = (stF w cfg (.tupleHet (w.ntTys c)) o).bind (fun r =>
       match r with | .coll .tuple ys => some (ntMk w c ys) | _ => Option.none) := by
-  cases hit : iterItems o with
-  | none => rw [stF_nt_none w cfg hit, stF_tup_none w cfg hit]; rfl
-  | some xs =>
-    rw [stF_nt_some w cfg hit, stF_tup_some w cfg hit, if_pos hnt]
-    cases stFT w cfg (w.ntTys c) xs <;> rfl
+  rw [stF_nt_some w cfg hit, stF_tup_some w cfg hit, if_pos hnt]
+  cases stFT w cfg (w.ntTys c) xs <;> rfl
 
 theorem vals_zip {names : List String} {ys : List Obj} (h : names.length = ys.length) : vals (names.zip ys) = ys := by
   induction names generalizing ys with
